@@ -96,3 +96,14 @@ func Assume(b bool) {}
 
 // Cell reads the variable called name captured (transitively) by the closures of root.
 func Cell[T any](root any, name string) T { panic("verifspec: ghost function") }
+
+// Has reports whether k is a key of m.
+func Has[K comparable, V any](m map[K]V, k K) bool { _, ok := m[k]; return ok }
+
+// Visited: inside (an invariant of) a `for k, v := range m` loop: key k has
+// already been visited by the loop.  VisitedCount: how many keys were visited.
+func Visited[K comparable, V any](m map[K]V, k K) bool { panic("verifspec: ghost function") }
+func VisitedCount[K comparable, V any](m map[K]V) int  { panic("verifspec: ghost function") }
+
+// IterPosAtEntry: inside a loop invariant: IterPos(it) when the loop was first reached.
+func IterPosAtEntry(it any) int { panic("verifspec: ghost function") }
